@@ -3,6 +3,7 @@ package c18
 import (
 	"encoding/json"
 	"fmt"
+	"os"
 	"strings"
 	"sync"
 	"testing"
@@ -28,6 +29,76 @@ type hookNote struct {
 // seen with detect=enter or the time is up, then keeps reading for grace to
 // catch unwanted ones.
 func collectNotes(sub *t38.Conn, want map[string]bool, wait, grace time.Duration) map[string]bool {
+	return collectNotesLive(sub, nil, want, wait, grace)
+}
+
+// collectNotesLive additionally drains a live-fence connection in the
+// background (its notifications are recorded as "live/<id>") until the
+// channel collection is finished.
+func collectNotesLive(sub, live *t38.Conn, want map[string]bool, wait, grace time.Duration) map[string]bool {
+	var mu sync.Mutex
+	liveGot := map[string]bool{}
+	done := make(chan struct{})
+	var wg sync.WaitGroup
+	if live != nil {
+		wg.Add(1)
+		go func() {
+			defer wg.Done()
+			for {
+				select {
+				case <-done:
+					return
+				default:
+				}
+				v, err := live.RecvTimeout(200 * time.Millisecond)
+				if err != nil {
+					if err == t38.ErrHang {
+						continue
+					}
+					return
+				}
+				var n hookNote
+				if v.Kind == '$' && json.Unmarshal([]byte(v.Str), &n) == nil && n.Detect == "enter" {
+					mu.Lock()
+					liveGot["live/"+n.ID] = true
+					mu.Unlock()
+				}
+			}
+		}()
+	}
+	chanWant := map[string]bool{}
+	for k := range want {
+		if !strings.HasPrefix(k, "live/") {
+			chanWant[k] = true
+		}
+	}
+	got := collectChan(sub, chanWant, wait, grace)
+	// give the live connection the same patience
+	deadline := time.Now().Add(grace + 2*time.Second)
+	for live != nil && time.Now().Before(deadline) {
+		mu.Lock()
+		miss := false
+		for k := range want {
+			if strings.HasPrefix(k, "live/") && !liveGot[k] {
+				miss = true
+			}
+		}
+		mu.Unlock()
+		if !miss {
+			time.Sleep(300 * time.Millisecond) // unwanted ones
+			break
+		}
+		time.Sleep(20 * time.Millisecond)
+	}
+	close(done)
+	wg.Wait()
+	for k := range liveGot {
+		got[k] = true
+	}
+	return got
+}
+
+func collectChan(sub *t38.Conn, want map[string]bool, wait, grace time.Duration) map[string]bool {
 	got := map[string]bool{}
 	deadline := time.Now().Add(wait)
 	controlsSeen := false
@@ -124,12 +195,31 @@ func probeHookFilter(t testing.TB, c *ev.Collector) {
 		c.NonTrivial("hookfilter-probe")
 		what := "a hook's WHEREEVAL interpreter is handed back to the script pool while the hook keeps using it: " + strings.Join(seen, " | ") + " | (not run here because it kills the process: with such a channel defined, EVALNA \"local x=0 for i=1,30000000 do x=x+1 end return 1\" 0 on one connection and SET fleet t2 POINT 6 6 on another -> panic: index out of range [-1] in gopher-lua (*LState).Pop called from whereevalT.match / fenceMatch / queueHooks: two goroutines on one LState)"
 		knownOrViolation(c, findingHookLua, what, map[string]any{"sub": "hookfilter", "observations": seen})
+		if os.Getenv("VERIF_C18_FORCE_CONCURRENT") == "1" {
+			// verification aid: show that the concurrent part kills the process (server-panic)
+			c.Flush()
+			runHookConcurrency(t, c, srv, ctl, sub)
+		}
 		return
 	}
 	// (3) only when the interpreter is evidently the hook's own: fence filters
 	// must follow the field value while non-atomic scripts and WHEREEVAL
 	// searches keep the pool busy (with the defect present this crashes the process)
 	c.Label("hookfilter:own-interpreter")
+	runHookConcurrency(t, c, srv, ctl, sub)
+}
+
+// runHookConcurrency: fence filters (channels and a live fence) must follow
+// the field value while scripts and WHEREEVAL searches keep the pool busy.
+// With a fence interpreter shared with the pool this kills the process
+// (two goroutines on one LState) - the driver reports that as server-panic.
+func runHookConcurrency(t testing.TB, c *ev.Collector, srv *t38.Srv, ctl, sub *t38.Conn) {
+	live := srv.MustDial()
+	defer live.Close()
+	if v, err := live.Do("WITHIN", "fleet", "WHEREEVAL", "return FIELDS.speed > tonumber(ARGV[1])", "1", "50", "WHEREEVAL", "return KEYS == nil", "0", "FENCE", "DETECT", "enter", "BOUNDS", "0", "0", "10", "10"); err != nil || !v.Equal(t38.Simple("OK")) {
+		c.Violation("hook-filter-not-followed", fmt.Sprintf("live WITHIN ... WHEREEVAL ... FENCE answered %v (err %v)", v, err), map[string]any{"sub": "hookfilter"})
+		return
+	}
 	var wg sync.WaitGroup
 	stop := make(chan struct{})
 	for i := 0; i < 6; i++ {
@@ -144,8 +234,10 @@ func probeHookFilter(t testing.TB, c *ev.Collector) {
 					return
 				default:
 				}
-				if i%2 == 0 {
+				if i%3 == 0 {
 					cn.Do("EVALNA", "local x = 0 for i = 1, 200000 do x = x + 1 end return KEYS[1]", "1", fmt.Sprintf("busy-%d", i), "50")
+				} else if i%3 == 1 {
+					cn.Do("EVAL", "local x = 0 for i = 1, 20000 do x = x + 1 end tile38.call('set','other','o','field','speed',99,'point',5,5) return KEYS[1]", "1", fmt.Sprintf("atomic-%d", i), "10")
 				} else {
 					cn.Do("SCAN", "fleet", "WHEREEVAL", "return FIELDS.speed > tonumber(ARGV[1])", "1", "70", "COUNT")
 				}
@@ -159,7 +251,7 @@ func probeHookFilter(t testing.TB, c *ev.Collector) {
 		speed := "20"
 		if i%2 == 0 {
 			speed = "90"
-			wantAll["noargs/"+id], wantAll["withargs/"+id], wantAll["clean/"+id] = true, true, true
+			wantAll["noargs/"+id], wantAll["withargs/"+id], wantAll["clean/"+id], wantAll["live/"+id] = true, true, true, true
 		} else {
 			slow = append(slow, id)
 			wantAll["clean/"+id] = true
@@ -168,7 +260,7 @@ func probeHookFilter(t testing.TB, c *ev.Collector) {
 		ctl.MustDo("SET", "fleet", id, "FIELD", "speed", speed, "POINT", "4", "4")
 		c.Case()
 	}
-	got = collectNotes(sub, wantAll, 20*time.Second, 500*time.Millisecond)
+	got := collectNotesLive(sub, live, wantAll, 20*time.Second, 500*time.Millisecond)
 	close(stop)
 	wg.Wait()
 	var missing, extra []string
@@ -178,7 +270,7 @@ func probeHookFilter(t testing.TB, c *ev.Collector) {
 		}
 	}
 	for _, id := range slow {
-		for _, h := range []string{"noargs", "withargs"} {
+		for _, h := range []string{"noargs", "withargs", "live"} {
 			if got[h+"/"+id] {
 				extra = append(extra, h+"/"+id)
 			}
@@ -206,6 +298,6 @@ func probeHookFilter(t testing.TB, c *ev.Collector) {
 func TestC18_HookFilter(t *testing.T) {
 	c := ev.New(prop, "hookfilter", "exploration")
 	t.Cleanup(c.Flush)
-	c.Rule("channels with WHEREEVAL filters (one using ARGV, one not, one that returns KEYS == nil and EVAL_CMD == nil) and an unfiltered control channel on one fence; (1) SET of a matching object must be announced on all; (2) the same SET made from inside an EVAL that was given a key must be announced on the KEYS == nil channel too; both are the deterministic probe of finding " + findingHookLua + ". (3) only if (1) and (2) hold: 40/200 SETs alternating speed 90 / 20 while 3 connections loop busy EVALNA scripts and 3 loop SCAN ... WHEREEVAL: exactly the objects the filter accepts are announced on the filtered channels (the unfiltered channel is the delivery control).")
+	c.Rule("channels with WHEREEVAL filters (one using ARGV, one not, one that returns KEYS == nil and EVAL_CMD == nil) and an unfiltered control channel on one fence; (1) SET of a matching object must be announced on all; (2) the same SET made from inside an EVAL that was given a key must be announced on the KEYS == nil channel too; both are the deterministic probe of finding " + findingHookLua + ". (3) only if (1) and (2) hold (otherwise it would kill the process, which is how a regression of the concurrent part alone shows up: server-panic): a LIVE WITHIN ... WHEREEVAL (ARGV) WHEREEVAL (KEYS == nil) FENCE on its own connection in addition, then 40/200 SETs alternating speed 90 / 20 while 6 connections loop busy EVALNA scripts, EVAL scripts that write, and SCAN ... WHEREEVAL: exactly the objects the filter accepts are announced on the filtered channels and on the live connection (the unfiltered channel is the delivery control).")
 	probeHookFilter(t, c)
 }
